@@ -160,6 +160,12 @@ def _c04(ctx, ad, cfg, env, runner, rng, drv, mult):
         if isinstance(st, DriverError):
             ctx.disagree(ad.name, f"model rejects an implementation state: {st}", _replay(ad, cfg, r, env))
             continue
+        # the mask theorems assume the environment's invariant (E.Inv): a RESET state the Lean predicates reject is outside what they cover —
+        # a mask that agrees with "legality" on a malformed board (e.g. no cell counted as empty) is not the set of legal moves of the instance
+        if r.get("t") == 0 and (st.get("feasible") is False or st.get("consistent") is False):
+            ctx.fail(ad.name, "reset_state_outside_invariant",
+                     "the reset state violates the invariant the mask theorems assume (" + ", ".join(k for k in ("feasible", "consistent") if st.get(k) is False) + " is false)",
+                     _replay(ad, cfg, r, env))
         impl_mask = ad.flat_mask(env, r["state"], r["ts_prev"].observation)
         m1 = np.array(st["mask"], dtype=bool).reshape(-1)
         legal = np.array(st["legal"], dtype=bool).reshape(-1)
